@@ -21,6 +21,7 @@ pub fn run_job(job: &Job) -> RunResult {
         "io-sim" => crate::iosim::run(job),
         "lsp-sim" => crate::lsp::run(job),
         "api-sim" => crate::apisim::run(job),
+        "cache-sim" => crate::cachesim::run(job),
         other => {
             let mut r = RunResult::new(job);
             r.harness(format!("unknown engine {other}"));
